@@ -1,6 +1,6 @@
 // unit distill_builder — C01: afftree_from_layers_generic (src/distill/builder.rs) computes the network, GIVEN the contracts of the operations it
-// calls: compose::<false,false>, apply_func and the activation schemas are proved in their own units; infeasible_elimination, compose::<true,_>,
-// argmax and class_characterization are ASSUMED here (they depend on the LP solver / are checked bounded under C03 and C17).
+// calls: compose::<false,false>, apply_func and all schemas (activations, argmax, class_characterization) are proved in their own units;
+// infeasible_elimination and compose::<true,_> are ASSUMED here (they depend on the LP solver and are checked bounded under C03).
 use vstd::prelude::*;
 use std::marker::PhantomData;
 use std::mem;
@@ -74,22 +74,9 @@ pub fn first_terminal_outdim(t: &AffTree<2>) -> (r: usize)
 //@assumed units/pwl_schemas.rs | partial_leaky_ReLU
 //@assumed units/pwl_schemas.rs | partial_hard_tanh
 //@assumed units/pwl_schemas.rs | partial_hard_sigmoid
+//@assumed units/pwl_schemas.rs | class_characterization
+//@assumed units/pwl_schemas.rs | argmax
 
-// ASSUMED schema contracts (bounded check: bc schema, C17)
-#[verifier::external_body]
-pub fn argmax(dim: usize) -> (r: AffTree<2>)
-    requires dim >= 2
-    ensures r.tree.wf(), r.tree.root == Some(0usize), r.in_dim == dim, aff_shape_ok(r.a(), dim), out_dim_ok(r.a(), 1),
-        forall|h: Map<usize, nat>, x: V| ranked_down(r.a(), h) && x.len() == dim ==>
-            #[trigger] tree_fn(r.a(), h, 0, x) == Some(seq![argmax_idx(x, dim as int) as real]),
-{ unimplemented!() }
-#[verifier::external_body]
-pub fn class_characterization(dim: usize, clazz: usize) -> (r: AffTree<2>)
-    requires clazz < dim
-    ensures r.tree.wf(), r.tree.root == Some(0usize), r.in_dim == dim, aff_shape_ok(r.a(), dim), out_dim_ok(r.a(), 1),
-        forall|h: Map<usize, nat>, x: V| ranked_down(r.a(), h) && x.len() == dim ==>
-            #[trigger] tree_fn(r.a(), h, 0, x) == Some(seq![if is_max_at(x, clazz as int) { 1real } else { 0real }]),
-{ unimplemented!() }
 
 // ---------------------------------------------------------------- specification of distillation
 // the tree with arena a denotes "first the start tree a_init (precondition, or identity), then the layers ls"
